@@ -1,5 +1,6 @@
 import TR.Lemmas.Budget
 import TR.Lemmas.BudgetTrace
+import TR.Lemmas.BudgetTraceOuts
 /-!
 # C08 — the retry budget never grants more retries than it was funded
 
@@ -130,6 +131,19 @@ theorem trace_linearizable (cfg : Cfg) (hwf : WF cfg) (tr : List Item) (cs : CS)
   have ht' : cs.tokens = finalTokens cfg.initial tr := by simpa [cinit] using ht
   exact ht' ▸ hi.lin
 
+/-- … and what each thread's calls returned (`rets`: the results of its `try_withdraw` / `deposit` calls in program
+order) is exactly what that one-at-a-time execution gives it, followed — for a call that has not returned yet — by the
+result it is already committed to. For a trace in which every call has returned (`cs.opens = []`) the two coincide. -/
+theorem trace_linearizable_outputs (cfg : Cfg) (tr : List Item) (cs : CS) (h : checkTrace cfg tr = some cs) (tid : Nat) :
+    resultsOf tid cs.lin = rets tid tr ++ pend (findOpen cs.opens tid) := by
+  have := crun_outs cfg tr (cinit cfg) cs (fun _ => []) (by intro i; simp [cinit, resultsOf, findOpen, pend]) h tid
+  simpa using this
+
+theorem trace_linearizable_outputs_complete (cfg : Cfg) (tr : List Item) (cs : CS) (h : checkTrace cfg tr = some cs)
+    (hdone : cs.opens = []) (tid : Nat) : resultsOf tid cs.lin = rets tid tr := by
+  have := trace_linearizable_outputs cfg tr cs h tid
+  simpa [hdone, findOpen, pend] using this
+
 /-- Non-vacuity (a trace recorded from the real token bucket, two threads contending for the last token: both load,
 one compare-exchange succeeds, the other fails, reloads, is refused, then deposits): accepted, one grant. -/
 example :
@@ -137,7 +151,8 @@ example :
     let tr : List Item := [.begin 1 .W, .begin 0 .W, .tok 0 .load 1000 1000 true, .tok 1 .load 1000 1000 true,
       .tok 1 .cas 1000 0 true, .fin 1 (some true), .tok 0 .cas 0 0 false, .tok 0 .load 0 0 true, .fin 0 (some false),
       .begin 0 .D, .tok 0 .rmw 0 1000 true, .fin 0 none]
-    (checkTrace cfg tr).isSome = true ∧ grants tr = 1 ∧ depositCalls tr = 1 ∧ finalTokens cfg.initial tr = 1000 := by
+    (checkTrace cfg tr).isSome = true ∧ grants tr = 1 ∧ depositCalls tr = 1 ∧ finalTokens cfg.initial tr = 1000 ∧
+      rets 0 tr = [some false, none] ∧ rets 1 tr = [some true] ∧ ((checkTrace cfg tr).map (·.opens)) = some [] := by
   decide
 
 /-- The pinned-tree deposit (a load followed by a plain store) is rejected at its store, even in a run without
